@@ -226,6 +226,11 @@ def ranked_root(rng, n=None, chain=None, cyc=False):
                     # keys with a dollar or a backslash that is no marker: literal text of a reference path
                     v = ('m', v[1] + [(S('$d'), scalar(rng)), (S('b\\s'), ('l', [scalar(rng)]))])
                     sub[k] = sub[k] + ['$d', 'b\\s']
+                if rng.random() < 0.3:
+                    # a member that refers to sibling members by their full paths: looking at the whole
+                    # mapping ${rK} then meets ${rK:x} while rK is being resolved (no cycle: different paths)
+                    v = ('m', v[1] + [(S('sib'), S(rng.choice(['${%s:x}', '<${%s:z:w}>', '${%s:z}']) % k))])
+                    sub[k] = sub[k] + ['sib']
             elif r < 0.5:
                 v = ('l', [scalar(rng), scalar(rng)])
             else:
